@@ -451,8 +451,49 @@ fn t_late_failure(r: &mut Rng) -> Program {
     Program { family: "late-failure", lines, expected: vec![None, None, Some(v.clone()), None, None, Some(v)], confluent: true }
 }
 
+/// T10: a select that completes through ANOTHER source while a filter call on a heap-binary message
+/// is in flight (timeout / awaited process / higher-priority type-only receive), after which the
+/// message is taken out of the mailbox by a later receive and dropped when the process completes.
+fn t_select_cross(r: &mut Rng) -> Program {
+    let spin = 5 + r.usize(60);
+    let a = lit(r);
+    let b = lit(r);
+    let c = lit(r);
+    let slow = "slow = #'int { | =0 => Ok | [~, 1] __integer_subtract__ ^ }";
+    let m1 = format!("[{}, {}] __binary_concat__", hexlit(&a), hexlit(&b));
+    let m2 = format!("[{}, {}] __binary_concat__", hexlit(&c), hexlit(&a));
+    let tail = "q = @{ 5 }, !q".to_string();
+    match r.below(3) {
+        0 => {
+            // a timeout listed before the filter
+            let t = 1 + r.usize(4);
+            let src = format!(
+                "{slow}, p = @{{ [! [{t}, #'bin {{ {spin} slow }}]], !#'bin =m, 7 }}, {m1} p, {m2} p, !p"
+            );
+            Program { family: "select-cross-timeout", lines: vec![src, tail], expected: vec![Some("i7".into()), Some("i5".into())], confluent: true }
+        }
+        1 => {
+            // an awaited process listed before the filter; it finishes while the filter runs
+            let qspin = 1 + r.usize(40);
+            let src = format!(
+                "{slow}, w = @{{ [{qspin} slow], 1 }}, p = @{{ [! [w, #'bin {{ {spin} slow }}]], !#'bin =m, 7 }}, {m1} p, {m2} p, !p"
+            );
+            Program { family: "select-cross-await", lines: vec![src, tail], expected: vec![Some("i7".into()), Some("i5".into())], confluent: true }
+        }
+        _ => {
+            // a higher-priority type-only receive; its message arrives while the filter runs
+            let d = r.usize(3);
+            let src = format!(
+                "{slow}, p = @{{ [! [#'int, #'bin {{ {spin} slow }}]], !#'bin =m, 7 }}, {m1} p, {m2} p, [! [{d}]], 3 p, !p"
+            );
+            Program { family: "select-cross-typeonly", lines: vec![src, tail], expected: vec![Some("i7".into()), Some("i5".into())], confluent: true }
+        }
+    }
+}
+
 pub fn generate(r: &mut Rng) -> Program {
-    match r.below(24) {
+    match r.below(28) {
+        24..=27 => t_select_cross(r),
         0..=2 => t_local(r),
         3..=6 => t_worker_local(r),
         7..=9 => t_spawn(r),
